@@ -104,6 +104,7 @@ pub struct Report {
     pub checks_by_name: BTreeMap<String, u64>,
     pub covers: BTreeMap<String, u64>,
     pub violations: Vec<Violation>,
+    pub violation_counts: BTreeMap<String, u64>,
     pub samples: Vec<serde_json::Value>,
     pub exhausted: bool,
     pub inconclusive: u64,
@@ -111,9 +112,17 @@ pub struct Report {
     pub crosscheck_disagreements: u64,
     pub wall_s: f64,
     pub paths_with_checks: u64,
+    pub discharged_syntactically: u64,
 }
 
 impl Report {
+    pub fn push_violation(&mut self, v: Violation) {
+        *self.violation_counts.entry(v.check.clone()).or_default() += 1;
+        let n = self.violations.iter().filter(|x| x.check == v.check).count();
+        if n < 2 {
+            self.violations.push(v);
+        }
+    }
     pub fn merge(&mut self, o: Report) {
         self.paths += o.paths;
         self.pruned += o.pruned;
@@ -131,7 +140,15 @@ impl Report {
         for (k, v) in o.covers {
             *self.covers.entry(k).or_default() += v;
         }
-        self.violations.extend(o.violations);
+        for v in o.violations {
+            let n = self.violations.iter().filter(|x| x.check == v.check).count();
+            if n < 2 {
+                self.violations.push(v);
+            }
+        }
+        for (k, v) in o.violation_counts {
+            *self.violation_counts.entry(k).or_default() += v;
+        }
         for s in o.samples {
             if self.samples.len() < 6 {
                 self.samples.push(s);
@@ -142,6 +159,7 @@ impl Report {
         self.crosschecked += o.crosschecked;
         self.crosscheck_disagreements += o.crosscheck_disagreements;
         self.paths_with_checks += o.paths_with_checks;
+        self.discharged_syntactically += o.discharged_syntactically;
     }
     pub fn to_json(&self) -> serde_json::Value {
         serde_json::json!({
@@ -156,8 +174,10 @@ impl Report {
             "choice_forks": self.choice_forks,
             "final_queries": self.final_queries,
             "checks_discharged": self.checks_discharged,
+            "discharged_syntactically": self.discharged_syntactically,
             "checks_by_name": self.checks_by_name,
             "covers": self.covers,
+            "violation_counts": self.violation_counts,
             "violations": self.violations.iter().map(|v| serde_json::json!({
                 "check": v.check, "detail": v.detail, "model": v.model,
                 "trail": v.trail.iter().map(|(t,c)| serde_json::json!([t,c])).collect::<Vec<_>>(),
@@ -185,6 +205,9 @@ pub struct Ctx {
     widths: Vec<u32>,
     var_ids: HashMap<String, T>,
     intern: HashMap<Node, T>,
+    rel: HashMap<(T, T), u8>,
+    bounds: HashMap<T, (U256, U256)>,
+    pub syntactic_hits: u64,
     declared: HashSet<String>,
     path_vars: Vec<(String, u32)>,
     pc: Vec<T>,
@@ -210,6 +233,14 @@ thread_local! {
     static PATH_RESET: RefCell<Vec<fn()>> = RefCell::new(Vec::new());
 }
 
+fn flip(m: u8) -> u8 {
+    (m & 2) | ((m & 1) << 2) | ((m & 4) >> 2)
+}
+
+fn mask_of(w: u32) -> U256 {
+    mask(w.max(1))
+}
+
 fn mask(w: u32) -> U256 {
     if w >= 256 {
         U256::MAX
@@ -226,6 +257,9 @@ impl Ctx {
             widths: vec![],
             var_ids: HashMap::new(),
             intern: HashMap::new(),
+            rel: HashMap::new(),
+            bounds: HashMap::new(),
+            syntactic_hits: 0,
             declared: HashSet::new(),
             path_vars: vec![],
             pc: vec![],
@@ -241,7 +275,7 @@ impl Ctx {
             notes: vec![],
             checks_this_path: 0,
             rep: Report::default(),
-            max_violations: 8,
+            max_violations: 12,
             crosscheck_every: 0,
             seed: 0,
         }
@@ -396,7 +430,150 @@ impl Ctx {
         r
     }
 
+    /// syntactic knowledge: relation masks between term pairs (1 = LT, 2 = EQ, 4 = GT)
+    /// and unsigned interval bounds of terms, both derived only from asserted literals
+    fn learn(&mut self, t: T, positive: bool) {
+        match self.arena[t as usize].clone() {
+            Node::Not(x) => self.learn(x, !positive),
+            Node::Bin(Op::And, a, b) if positive => {
+                self.learn(a, true);
+                self.learn(b, true);
+            }
+            Node::Bin(Op::Or, a, b) if !positive => {
+                self.learn(a, false);
+                self.learn(b, false);
+            }
+            Node::Bin(op @ (Op::Ult | Op::Ule | Op::Eq), a, b) => {
+                if self.widths[a as usize] == 0 {
+                    return;
+                }
+                let truth: u8 = match op {
+                    Op::Ult => 1,
+                    Op::Ule => 3,
+                    _ => 2,
+                };
+                let mask = if positive { truth } else { 7 & !truth };
+                // relation of (a, b); stored for the ordered pair (min, max)
+                let (key, m) = if a <= b { ((a, b), mask) } else { ((b, a), flip(mask)) };
+                let e = self.rel.entry(key).or_insert(7);
+                *e &= m;
+                // bounds against constants
+                let ca = self.const_of(a);
+                let cb = self.const_of(b);
+                let w = self.widths[a as usize];
+                match (ca, cb) {
+                    (None, Some(k)) => self.bound_by(a, mask, k, w),
+                    (Some(k), None) => self.bound_by(b, flip(mask), k, w),
+                    _ => {}
+                }
+            }
+            _ => {}
+        }
+    }
+
+    fn const_of(&self, t: T) -> Option<U256> {
+        match &self.arena[t as usize] {
+            Node::Const(v, _) => Some(*v),
+            _ => None,
+        }
+    }
+
+    /// term `a` relates to constant k by one of the relations in mask
+    fn bound_by(&mut self, a: T, mask: u8, k: U256, w: u32) {
+        let full = mask_of(w);
+        let e = self.bounds.entry(a).or_insert((U256::ZERO, full));
+        // lower bound: smallest value allowed
+        let lo = if mask & 1 != 0 {
+            U256::ZERO
+        } else if mask & 2 != 0 {
+            k
+        } else {
+            k.saturating_add(U256::from(1u8))
+        };
+        let hi = if mask & 4 != 0 {
+            full
+        } else if mask & 2 != 0 {
+            k
+        } else if k == U256::ZERO {
+            U256::ZERO
+        } else {
+            k - U256::from(1u8)
+        };
+        if lo > e.0 {
+            e.0 = lo;
+        }
+        if hi < e.1 {
+            e.1 = hi;
+        }
+    }
+
+    fn range_of(&self, t: T) -> (U256, U256) {
+        if let Some(k) = self.const_of(t) {
+            return (k, k);
+        }
+        let w = self.widths[t as usize];
+        self.bounds.get(&t).copied().unwrap_or((U256::ZERO, mask_of(w)))
+    }
+
+    /// Some(b) if the asserted literals imply cond == b by the syntactic rules
+    fn syntactic(&self, cond: T) -> Option<bool> {
+        match &self.arena[cond as usize] {
+            Node::BConst(b) => Some(*b),
+            Node::Not(x) => self.syntactic(*x).map(|b| !b),
+            Node::Bin(Op::And, a, b) => match (self.syntactic(*a), self.syntactic(*b)) {
+                (Some(false), _) | (_, Some(false)) => Some(false),
+                (Some(true), Some(true)) => Some(true),
+                _ => None,
+            },
+            Node::Bin(Op::Or, a, b) => match (self.syntactic(*a), self.syntactic(*b)) {
+                (Some(true), _) | (_, Some(true)) => Some(true),
+                (Some(false), Some(false)) => Some(false),
+                _ => None,
+            },
+            Node::Bin(op @ (Op::Ult | Op::Ule | Op::Eq), a, b) => {
+                let (a, b) = (*a, *b);
+                if self.widths[a as usize] == 0 {
+                    return None;
+                }
+                let mut possible: u8 = if a <= b {
+                    self.rel.get(&(a, b)).copied().unwrap_or(7)
+                } else {
+                    flip(self.rel.get(&(b, a)).copied().unwrap_or(7))
+                };
+                let (la, ha) = self.range_of(a);
+                let (lb, hb) = self.range_of(b);
+                if ha < lb {
+                    possible &= 1;
+                } else if ha <= lb {
+                    possible &= 3;
+                }
+                if la > hb {
+                    possible &= 4;
+                } else if la >= hb {
+                    possible &= 6;
+                }
+                let truth: u8 = match op {
+                    Op::Ult => 1,
+                    Op::Ule => 3,
+                    _ => 2,
+                };
+                if possible == 0 {
+                    return None; // infeasible path; let the solver say so
+                }
+                if possible & !truth == 0 {
+                    Some(true)
+                } else if possible & truth == 0 {
+                    Some(false)
+                } else {
+                    None
+                }
+            }
+            _ => None,
+        }
+    }
+
     fn assert_term(&mut self, t: T) {
+        self.learn(t, true);
         self.pc.push(t);
         if self.mode == Mode::Explore {
             let s = self.smt(t);
@@ -612,6 +789,10 @@ pub fn decide(cond: T) -> bool {
             let v = c.eval(cond) != U256::ZERO;
             return Act::Ret(v);
         }
+        if let Some(b) = c.syntactic(cond) {
+            c.syntactic_hits += 1;
+            return Act::Ret(b);
+        }
         if c.pos < c.trail.len() {
             let dir = c.trail[c.pos].taken != 0;
             debug_assert!(c.trail[c.pos].kind == Kind::Decide, "nondeterministic replay");
@@ -819,7 +1000,7 @@ pub fn check(name: &str, cond: T) -> bool {
                     notes: c.notes.clone(),
                     replayed: None,
                 };
-                c.rep.violations.push(v);
+                c.rep.push_violation(v);
             }
             return b;
         }
@@ -836,9 +1017,14 @@ pub fn check(name: &str, cond: T) -> bool {
                     notes: c.notes.clone(),
                     replayed: None,
                 };
-                c.rep.violations.push(vi);
+                c.rep.push_violation(vi);
             }
             return v;
+        }
+        if c.syntactic(cond) == Some(true) {
+            c.rep.checks_discharged += 1;
+            c.rep.discharged_syntactically += 1;
+            return true;
         }
         let ncond = c.mk(Node::Not(cond), 0);
         c.rep.final_queries += 1;
@@ -890,7 +1076,7 @@ pub fn check(name: &str, cond: T) -> bool {
                     replayed: None,
                 };
                 c.model = saved;
-                c.rep.violations.push(v);
+                c.rep.push_violation(v);
                 false
             }
             None => {
@@ -985,7 +1171,13 @@ fn explore_thread(
             c.widths.clear();
             c.var_ids.clear();
         c.intern.clear();
+        c.rel.clear();
+        c.bounds.clear();
             c.intern.clear();
+        c.rel.clear();
+        c.bounds.clear();
+            c.rel.clear();
+            c.bounds.clear();
             c.path_vars.clear();
             c.pc.clear();
             c.auto.clear();
@@ -1043,12 +1235,12 @@ fn explore_thread(
                             notes: c.notes.clone(),
                             replayed: None,
                         };
-                        c.rep.violations.push(v);
+                        c.rep.push_violation(v);
                     }
                 }
             }
             c.timed(|sv| sv.cmd("(pop 1)"));
-            if c.rep.violations.len() >= c.max_violations {
+            if c.rep.violation_counts.len() >= c.max_violations {
                 c.rep.exhausted = false;
                 fatal = true;
             }
@@ -1149,6 +1341,8 @@ pub fn replay_concrete(body: &(dyn Fn() + Sync), v: &Violation) -> Vec<Violation
         c.widths.clear();
         c.var_ids.clear();
         c.intern.clear();
+        c.rel.clear();
+        c.bounds.clear();
         c.path_vars.clear();
         c.pc.clear();
         c.auto.clear();
@@ -1192,10 +1386,10 @@ pub fn replay_concrete(body: &(dyn Fn() + Sync), v: &Violation) -> Vec<Violation
                     notes: c.notes.clone(),
                     replayed: None,
                 };
-                c.rep.violations.push(vi);
+                c.rep.push_violation(vi);
             } else if p.is::<Pruned>() {
                 let vi = Violation { check: "__pruned__".into(), ..Default::default() };
-                c.rep.violations.push(vi);
+                c.rep.push_violation(vi);
             }
         }
         c.mode = Mode::Explore;
